@@ -4,7 +4,7 @@
 TIER=$1; shift
 mkdir -p /tmp/seedsweep
 for S in "$@"; do
-  for i in $(seq -w 1 20); do
+  for i in ${PROPS:-$(seq -w 1 20)}; do
     L=/tmp/seedsweep/C$i-$TIER-$S.log
     t0=$(date +%s)
     VERIF_SEED=$S python3 /verif/run.py C$i --tier $TIER > $L 2>&1; rc=$?
